@@ -14,7 +14,7 @@ func init() { Registry["C09"] = C09 }
 
 // C09: the views of one result agree.
 func C09(p *core.Program, r *core.Report) {
-	r.Explanation = "W1 (one source per element): for every Element.GenerateOutput the text view is domutil.InnerText of the very same SSA value / field that the HTML view serialises, or it is \"\" and the HTML view is built only from nodes that cannot contain text (img/picture clone after processPicture; shallow video clone with source/track children; tag placeholders); implementations whose text view is \"\" while the HTML view carries source text are reported (Embed: known finding); any other string returned when textOnly is set (a join of per-row texts, an attribute value) is reported. W2: ContentImages are read from the same cached processed clones (shared with C06-U4) and srcset reader/writer agree. W3: in Apply, Text and Node come from GenerateOutput(true/false) on the same Document, Node is the parsed HTML string of that call, WordCount and the Document come from one ExtractContent call, ContentImages from the extractor. W4: ExtractContent returns document and word count of the same pass (shared with C20-F1); Document.GenerateOutput and GetImageURLs iterate the element list forward and skip exactly the non-content elements. W5: C02-O10 shared (no trimmed rendering is concatenated). W6: the compiled word-matcher patterns of the Count methods find two words in ab<r>cd for every white-space character r of Unicode, so the counters split where strings.Fields splits. W6 also: the matchers do not split at format characters (soft hyphen, zero-width space and joiners, BOM). W7: the attribute allow-list does not keep aria-hidden (its visibility rule also reads class, which is always dropped, so the text view of the processed clone would judge differently from the walk)."
+	r.Explanation = "W1 (one source per element): for every Element.GenerateOutput the text view is domutil.InnerText of the very same SSA value / field that the HTML view serialises, or it is \"\" and the HTML view is built only from nodes that cannot contain text (img/picture clone after processPicture; shallow video clone with source/track children; tag placeholders); implementations whose text view is \"\" while the HTML view carries source text are reported (Embed: known finding); any other string returned when textOnly is set (a join of per-row texts, an attribute value) is reported. W2: ContentImages are read from the same cached processed clones (shared with C06-U4) and srcset reader/writer agree. W3: in Apply, Text and Node come from GenerateOutput(true/false) on the same Document, Node is the parsed HTML string of that call, WordCount and the Document come from one ExtractContent call, ContentImages from the extractor. W4: ExtractContent returns document and word count of the same pass (shared with C20-F1); Document.GenerateOutput and GetImageURLs iterate the element list forward and skip exactly the non-content elements. W5: C02-O10 shared (no trimmed rendering is concatenated). W6: the compiled word-matcher patterns of the Count methods find two words in ab<r>cd for every white-space character r of Unicode, so the counters split where strings.Fields splits. W6 also: the matchers do not split at format characters (soft hyphen, zero-width space and joiners, BOM). W7: the attribute allow-list does not keep aria-hidden (its visibility rule also reads class, which is always dropped, so the text view of the processed clone would judge differently from the walk). W8: C04-V5 shared - the collector of InnerText writes every text node with a blank on either side (WordCount is counted per text node, so it equals the words of Text only if text nodes never run together) and every result of InnerText is made from the collector's buffer."
 	r.NotCovered = "word-level equality of the two views (whitespace/punctuation normalisation of InnerText vs. the HTML parser), WordCount = number of words of Text (numeric relation between the word counter and InnerText)."
 
 	// ---- W1
@@ -93,6 +93,10 @@ func C09(p *core.Program, r *core.Report) {
 	// W5: the word sequences of the two views agree only if the HTML view does not glue words the
 	// text view separates (shared with C02-O10)
 	checkNoTrimmedConcatenation(p, r, "W5")
+	// W8: the text view puts a blank around every text node - the builder counts words per text
+	// node, so the count only equals the words of the text view if no two nodes run together
+	// (C04-V5 shared: the collector of InnerText and that nothing gets around it)
+	checkInnerTextCollector(p, r, "W8")
 	// W6: the word counters split where the text view splits
 	checkWordCounterSplits(p, r, "W6")
 	// W7: the text view judges visibility on the processed clone, the walk (and WordCount) on the
@@ -165,6 +169,7 @@ func C09(p *core.Program, r *core.Report) {
 			}
 		}
 		r.Add("W3", "Result.Node holds the HTML rendering of the same document", p.Pos(ap.Pos()), okHTML && doc != "", "SetInnerHTML(container, doc.GenerateOutput(false)) with the document of Result.Text")
+		checkNodeUntouchedAfterParse(p, r, "W3")
 		wc := one("WordCount")
 		r.Add("W3", "Result.WordCount comes from the same ExtractContent call", p.Pos(ap.Pos()), wc != "" && strings.TrimSuffix(wc, "#1") == strings.TrimSuffix(doc, "#0"), shortVal(wc))
 		ci := one("ContentImages")
@@ -366,4 +371,50 @@ func checkWordCounterSplits(p *core.Program, r *core.Report, rule string) {
 		}
 	}
 	r.Floor(rule, 2)
+}
+
+// checkNodeUntouchedAfterParse (C09-W3, shared as C08-E12): Result.Node is the parsed HTML
+// rendering as it is. In Apply (unexported helpers expanded) the container that is stored as
+// Result.Node is created, filled by one SetInnerHTML and stored - it is handed to nothing else, so
+// no later pass can take retained elements out of (or put anything into) the HTML view only.
+func checkNodeUntouchedAfterParse(p *core.Program, r *core.Report, rule string) {
+	ap := mustInl(p, r, rule, core.ModPath+".Apply")
+	if ap == nil {
+		return
+	}
+	var conts []ssa.Value
+	for _, in := range instrsOf(ap) {
+		if st, ok := in.(*ssa.Store); ok {
+			if fa, ok := st.Addr.(*ssa.FieldAddr); ok && core.FieldNameOf(fa) == "Node" {
+				if nm := core.NamedOf(derefT(fa.X.Type())); nm != nil && nm.Obj().Name() == "Result" {
+					conts = append(conts, st.Val)
+				}
+			}
+		}
+	}
+	var other []string
+	for _, cv := range conts {
+		refs := cv.Referrers()
+		if refs == nil {
+			continue
+		}
+		for _, ref := range *refs {
+			switch x := ref.(type) {
+			case *ssa.Store:
+				if x.Val == cv {
+					if fa, ok := x.Addr.(*ssa.FieldAddr); ok && core.FieldNameOf(fa) == "Node" {
+						continue
+					}
+				}
+			case ssa.CallInstruction:
+				if core.IsCallTo(x, "github.com/go-shiori/dom.SetInnerHTML") && len(x.Common().Args) == 2 && x.Common().Args[0] == cv {
+					continue
+				}
+			case *ssa.DebugRef:
+				continue
+			}
+			other = append(other, p.Pos(ref.Pos())+": "+strings.TrimSpace(ref.String()))
+		}
+	}
+	r.Add(rule, "Result.Node is only created, filled by SetInnerHTML and stored", p.Pos(ap.Pos()), len(conts) == 1 && len(other) == 0, fmt.Sprintf("%d stores of Result.Node; other uses of the container: %v", len(conts), other))
 }
